@@ -179,6 +179,8 @@ func c04showPkt(h *rtp.Header, pl []byte) string {
 
 func c04err(err error) string {
 	switch {
+	case errors.Is(err, errC04Injected):
+		return "err:write"
 	case errors.Is(err, io.ErrShortBuffer):
 		return "err:short"
 	case strings.Contains(err.Error(), "padding"):
@@ -341,6 +343,8 @@ func c04pickSize(r *Rng, cl string) int {
 		return c04sizes[r.Range(9, 15)]
 	case "inflight", "closewait":
 		return r.Pick(1, 1, 2, 4)
+	case "writefail":
+		return r.Pick(1, 4, 8, 8, 16, 32, 64)
 	}
 	if r.Chance(1, 10) {
 		return c04sizes[r.Intn(len(c04sizes))]
@@ -707,7 +711,11 @@ type c04harn struct {
 	closeWaiting  bool
 	closeReturned bool
 	late          int // resend writes that reached the bottom writer after that Close had returned
+	// write-fault injection: the next failRtx retransmission writes / failOut original writes fail
+	failRtx, failOut int
 }
+
+var errC04Injected = errors.New("injected write failure")
 
 type c04bottom struct {
 	h *c04harn
@@ -732,8 +740,22 @@ func (b *c04bottom) Write(hdr *rtp.Header, payload []byte, _ interceptor.Attribu
 	if tag == "rtx" && h.closeReturned {
 		h.late++
 	}
+	fail := false
+	if tag == "rtx" && h.failRtx > 0 {
+		h.failRtx--
+		fail = true
+	} else if tag == "out" && h.failOut > 0 {
+		h.failOut--
+		fail = true
+	}
+	if fail {
+		tag += "!"
+	}
 	h.lines = append(h.lines, fmt.Sprintf("%s w=%d %s", tag, b.w, c04showPkt(hdr, payload)))
 	h.mu.Unlock()
+	if fail {
+		return 0, errC04Injected
+	}
 	return len(payload), nil
 }
 
@@ -785,6 +807,9 @@ func c04runResponder(t *testing.T, ops []string, o *Out) {
 				_ = icpt.Close()
 			}
 			icpt, reader, writers = nil, nil, nil
+			h.mu.Lock()
+			h.failRtx, h.failOut = 0, 0
+			h.mu.Unlock()
 			if err != nil {
 				o.P("err:size")
 				continue
@@ -915,6 +940,16 @@ func c04runResponder(t *testing.T, ops []string, o *Out) {
 			} else {
 				o.P("close-blocked")
 			}
+		case name == "fail" && icpt != nil:
+			a, ok := c04num(m, "rtx", 1000)
+			b, ok2 := c04num(m, "out", 1000)
+			if !ok || !ok2 {
+				o.P("bad-op")
+				continue
+			}
+			h.mu.Lock()
+			h.failRtx, h.failOut = int(a), int(b)
+			h.mu.Unlock()
 		case op == "hold" && icpt != nil:
 			h.mu.Lock()
 			h.hold = true
@@ -944,7 +979,7 @@ func init() {
 		},
 		Gen: func(r *Rng, tier string, idx int) Case {
 			classes := []string{"inorder", "gaps", "late", "wrap", "dupreq", "neversent", "outside", "otherssrc",
-				"rtx", "padding", "bigpayload", "unbind", "close", "rebind", "inflight", "bigsize", "mixed", "badsize", "dup", "closewait"}
+				"rtx", "padding", "bigpayload", "unbind", "close", "rebind", "inflight", "bigsize", "mixed", "badsize", "dup", "closewait", "writefail", "writefail"}
 			cl := classes[idx%len(classes)]
 			if cl == "badsize" {
 				return Case{Class: cl, Ops: []string{
@@ -979,7 +1014,7 @@ func init() {
 					g.cl = cl
 				case "wrap":
 					g.cur = (65536 - r.Range(1, 2*min(size, 40)+3)) & 0xFFFF
-				case "neversent", "outside", "dupreq", "rtx", "padding", "bigpayload", "inflight", "closewait":
+				case "neversent", "outside", "dupreq", "rtx", "padding", "bigpayload", "inflight", "closewait", "writefail":
 					g.cl = []string{"inorder", "mixed"}[r.Intn(2)]
 				}
 				streams = append(streams, &stream{ssrc, g, fb})
@@ -1017,12 +1052,52 @@ func init() {
 				}
 				ops = append(ops, s)
 			}
+			if cl == "writefail" {
+				// failing downstream writes: every NACK of a buffered in-window packet is one more
+				// retransmission attempt, whatever earlier attempts (or the original write) returned
+				st := streams[0]
+				for i := r.Range(2, min(size, 6)+1); i > 0; i-- {
+					if r.Chance(1, 5) {
+						ops = append(ops, fmt.Sprintf("fail rtx=0 out=%d", r.Pick(1, 1, 2)))
+					}
+					write(0)
+				}
+				for round := r.Range(2, 4); round > 0; round-- {
+					var parts []string
+					for k := r.Range(1, 2); k > 0; k-- {
+						pid := st.g.hist[len(st.g.hist)-1-r.Intn(min(len(st.g.hist), size))]
+						parts = append(parts, fmt.Sprintf("%d:%d", pid, r.Pick(0, 0, 1, 3, 0x8001)))
+					}
+					pairs := strings.Join(parts, ",")
+					ops = append(ops, fmt.Sprintf("fail rtx=%d out=0", r.Pick(1, 1, 2, 3, 20)))
+					// the same numbers again and again while they are still in the window
+					for rep := r.Range(2, 4); rep > 0; rep-- {
+						ops = append(ops, fmt.Sprintf("nack ssrc=%d pairs=%s", st.ssrc, pairs))
+						if r.Chance(1, 3) {
+							// new packets take storage from the pool; the old ones must be untouched
+							for j := r.Range(1, max(1, min(size/2, 3))); j > 0; j-- {
+								write(r.Intn(len(streams)))
+							}
+						}
+					}
+					ops = append(ops, "fail rtx=0 out=0", fmt.Sprintf("nack ssrc=%d pairs=%s", st.ssrc, pairs))
+					for j := r.Range(0, 2); j > 0; j-- {
+						write(0)
+					}
+				}
+			}
 			n := r.Range(8, 45)
+			if cl == "writefail" {
+				n = r.Range(0, 10)
+			}
 			holding := false
 			pendingNack := false
 			closeIssued := false // a Close is waiting behind the held resend
 			for i := 0; i < n; i++ {
 				k := r.Intn(20)
+				if (cl == "writefail" || cl == "mixed" || cl == "inflight") && r.Chance(1, 12) {
+					ops = append(ops, fmt.Sprintf("fail rtx=%d out=%d", r.Pick(0, 1, 2, 5), r.Pick(0, 0, 1)))
+				}
 				switch {
 				case cl == "closewait" && pendingNack && !closeIssued && k >= 10:
 					// Close while a resend is held inside the downstream Write: it has to wait
